@@ -109,6 +109,9 @@ class Ctx:
         objects started (None for harness actions)."""
         self.step_index = index
         world = self.world
+        if step.get('quiesce') or step.get('converge') or \
+                step.get('idle_check'):
+            self.quiesce()
         seed = step.get('sched_seed')
         rng = random.Random(seed) if seed is not None else None
         faults = [dict(f) for f in step.get('faults', ())]
@@ -166,6 +169,20 @@ class Ctx:
             cmds.append(cmd)
         self._run(step.get('horizon', 2.0), rng, faults)
         return cmds
+
+    def quiesce(self) -> None:
+        """"Once no command is in flight": commands stretched past their
+        step's horizon (lock_stall, extlock) get the time to finish."""
+        for _ in range(40):
+            busy = [cl for cl in self.clients.values()
+                    if not cl.conn.done and not cl.conn.held and any(
+                        c.result is None and not (
+                            c.kind == 'idle' and not c.done_sent)
+                        for c in cl.pending)]
+            if not busy:
+                return
+            self._run(2.0, None, [])
+            self.stat('settled_before_quiescent_point')
 
     def _run(self, horizon, rng, faults) -> None:
         try:
